@@ -301,6 +301,7 @@ func legacyWritesSSA(c *Ctx, p *packages.Package, fn *ssa.Function) *tbLegacyWri
 	// everything that may flow into the joined slice: appends and the initial literal
 	seen := map[ssa.Value]bool{}
 	var elems []ssa.Value // appended string values
+	elemSite := map[ssa.Value]ssa.Instruction{}
 	var walk func(v ssa.Value, depth int)
 	walk = func(v ssa.Value, depth int) {
 		v = throughCell(strip(v))
@@ -327,7 +328,12 @@ func legacyWritesSSA(c *Ctx, p *packages.Package, fn *ssa.Function) *tbLegacyWri
 				walk(x.Call.Args[0], depth+1)
 				if sl, ok := x.Call.Args[1].(*ssa.Slice); ok {
 					if arr, ok := sl.X.(*ssa.Alloc); ok {
-						elems = append(elems, storesIntoOrdered(arr)...)
+						for _, el := range storesIntoOrdered(arr) {
+							elems = append(elems, el)
+							if el != nil {
+								elemSite[el] = x
+							}
+						}
 						return
 					}
 				}
@@ -407,6 +413,22 @@ func legacyWritesSSA(c *Ctx, p *packages.Package, fn *ssa.Function) *tbLegacyWri
 			continue
 		}
 		out.nParts[key] = len(fields)
+		// the conditions the append stands under mention the token's own fields (or their parents) only
+		if site := elemSite[el]; site != nil && site.Parent() == fn {
+			for l := range w.factsOf(fn).Primary(site.Block()) {
+				for _, m := range ev.fieldMentions(l.V, 0) {
+					own := false
+					for _, f := range fields {
+						if m == f.field || strings.HasPrefix(f.field, m+".") {
+							own = true
+						}
+					}
+					if !own {
+						out.gates = append(out.gates, tbGate{key: key, field: fields[0].field, other: m, pos: site.Pos()})
+					}
+				}
+			}
+		}
 		for i, f := range fields {
 			part := ""
 			if len(fields) > 1 {
@@ -662,4 +684,33 @@ func legacyReadsSSA(c *Ctx, p *packages.Package, fn *ssa.Function, attrs *types.
 		}
 	}
 	return r
+}
+
+// fieldMentions: the receiver field paths that the value v is computed from (operands of comparisons, len, ...).
+func (e *legacyEval) fieldMentions(v ssa.Value, depth int) []string {
+	if v == nil || depth > 5 {
+		return nil
+	}
+	if p, _, ok := e.fieldPath(v, nil, 0); ok && p != "" {
+		return []string{p}
+	}
+	var out []string
+	switch x := strip(v).(type) {
+	case *ssa.BinOp:
+		out = append(out, e.fieldMentions(x.X, depth+1)...)
+		out = append(out, e.fieldMentions(x.Y, depth+1)...)
+	case *ssa.UnOp:
+		out = append(out, e.fieldMentions(x.X, depth+1)...)
+	case *ssa.Convert:
+		out = append(out, e.fieldMentions(x.X, depth+1)...)
+	case *ssa.Call:
+		for _, a := range callArgs(x) {
+			out = append(out, e.fieldMentions(a, depth+1)...)
+		}
+	case *ssa.Extract:
+		out = append(out, e.fieldMentions(x.Tuple, depth+1)...)
+	case *ssa.FieldAddr:
+		out = append(out, e.fieldMentions(x.X, depth+1)...)
+	}
+	return out
 }
